@@ -122,6 +122,23 @@ func canonical() []runCase {
 	add("bicg", []int{33, 70}, tm(g(1, false, false)))
 	add("conv2d", []int{1, 1, 8, 8, 2, 3, 1, 1, 1}, tm(g(1, false, false))) // 16 kernels, copies between them
 	add("im2col", []int{1, 2, 9, 9, 3, 1, 2, 1}, tm(g(1, false, false)))
+	// conv2d keeps weights and bias in ONE parameter buffer; the bias tensor is
+	// the slice at offset outc*c*k*k*4. Shapes whose bias straddles a 4 KiB page
+	// boundary, on devices whose consecutive virtual pages are NOT consecutive
+	// physical frames (unified GPUs place pages round-robin on their members):
+	// a copy that ignores the offset inside the page runs into a foreign frame.
+	// outc=110,c=1,k=3: bias = bytes 3960..4400; outc=56,c=2: 4032..4256;
+	// outc=227,c=1: 8172..9080. Single GPU = control (consecutive frames).
+	pc := len(out)
+	add("conv2d", []int{1, 1, 8, 8, 110, 3, 1, 1, 0}, g(2, true, false))
+	add("conv2d", []int{1, 1, 8, 8, 110, 3, 1, 1, 0}, g(4, true, false))
+	add("conv2d", []int{1, 2, 8, 8, 56, 3, 1, 1, 1}, g(4, true, false))
+	add("conv2d", []int{1, 1, 6, 6, 227, 3, 0, 1, 0}, cd(2, true, false))
+	add("conv2d", []int{1, 1, 8, 8, 110, 3, 1, 1, 0}, cd(4, true, true))
+	add("conv2d", []int{1, 1, 8, 8, 110, 3, 1, 1, 0}, g(1, false, false))
+	for i := pc; i < len(out); i++ {
+		out[i].PageCross = true
+	}
 	// timing platforms
 	add("fir", []int{1024, 16}, tm(g(1, false, false)))
 	add("matrixtranspose", []int{128}, tm(g(1, false, false)))
